@@ -17,6 +17,13 @@
 Numeric clauses decided by projection: sample == 0 / == 1 to 1e-9 for impulses; dense random inputs vs
 np.convolve, expand(reduce(fft)) = fft, lp + hp = Id, bp = hp o lp, dft / dft2 vs fft / fft2 (1e-9 relative),
 fcn_cosine monotone from 0 to 1.
+4. `forms`: the same numeric clauses on what a call can be handed and can find (references from the definitions): arguments left
+   out (mode, si, axis of freduce / fexpand / lp / hp / bp / dft on 2-/3-D arrays; in the model: FilterAxes with NoAxis), other
+   dimensionalities, element types (integer samples for the filters and the cosine taper, NumPy integers / floats as lengths),
+   Fortran-ordered / strided / read-only / aliased arguments, the caller's arrays and earlier results afterwards, calls after
+   other calls (same padded size with shorter signal and kernel, a failing call in between, argument objects refilled in place,
+   ns_optim_fft in descending / alternating order, fscale after the caller overwrote the previous scale, taper objects reused
+   and interleaved), ns_optim_fft up to NSOPTIM_LARGE_CAP.
 """
 import copy
 import json
@@ -30,6 +37,14 @@ from vkit import tlc, tracecheck
 
 TOL = 1e-9
 POW3 = (3, 9, 27, 81, 243, 729)
+# ns_optim_fft on the unchanged tree holds the products 2^0..2^24 times 3^0..3^14 only: 3^15 = 14348907 is the first 2^a 3^b it
+# lacks, so arguments in 14155777..14348907 come back as 15116544 (2^8 3^10), 2**31 - 1 as 6^12, 10**12 as 1114512556032.
+# Until that is decided / repaired the "larger sampled lengths" of ns_optim_fft stop at the cap.  To lift it: set
+# NSOPTIM_BEYOND_CAP = True (the arguments below are then checked as well, and random ones are drawn up to 10^12).
+NSOPTIM_LARGE_CAP = 14155776      # = 2^19 3^3, the largest 2^a 3^b below 3^15
+NSOPTIM_BEYOND_CAP = False
+NSOPTIM_BEYOND = [14155777, 14348907, 14348908, 2 * 3 ** 15, 2 ** 25 - 1, 2 ** 25, 2 ** 25 + 1, 3 ** 16, 2 ** 31 - 1, 2 ** 31, 2 ** 31 + 1,
+                  3 ** 20 + 1, 10 ** 12]
 
 
 def fourier():
@@ -132,35 +147,70 @@ def _decode(out, axis):
     return res
 
 
-def maps_record(n, shape_other, axis, use_default_axis=False):
-    """freduce / fexpand on a tagged array with n bins along `axis`"""
+def _as_form(a, form):
+    """the same values in another memory form: 'f' Fortran order, 'view' every other element of a larger buffer along every
+    axis, 'ro' read-only, 'c64' single precision complex"""
+    if form == "f":
+        return np.asfortranarray(a)
+    if form == "view":
+        big = np.full([2 * s + 1 for s in a.shape], (-7.5 - 3j) if np.iscomplexobj(a) else -7.5, dtype=a.dtype)
+        v = big[tuple(slice(1, 2 * s, 2) for s in a.shape)]
+        v[...] = a
+        return v
+    if form == "ro":
+        a = a.copy()
+        a.flags.writeable = False
+        return a
+    return a
+
+
+def maps_record(n, shape_other, axis, use_default_axis=False, form="c", ns_kw=False):
+    """freduce / fexpand on a tagged array with n bins along `axis` (`use_default_axis`: the argument is left out, the bins
+    are along the last axis); the argument arrays must come back untouched"""
     f = fourier()
-    rec = {"kind": "maps", "n": int(n), "axis": axis, "other": list(shape_other), "reduce": [], "expand": [], "exc": ""}
+    rec = {"kind": "maps", "n": int(n), "axis": axis, "other": list(shape_other), "reduce": [], "expand": [], "exc": "",
+           "form": form, "default_axis": bool(use_default_axis)}
     try:
         nd = len(shape_other) + 1
         ax = axis % nd
         shape = list(shape_other)
         shape.insert(ax, n)
-        full = _tagged(shape, ax)
+        full = _as_form(_tagged(shape, ax), form)
+        keep = np.array(full, copy=True)
         kw = {} if use_default_axis else {"axis": axis}
         rec["reduce"] = _decode(f.freduce(full, **kw), ax)
         shape[ax] = n // 2 + 1
-        half = _tagged(shape, ax)
-        rec["expand"] = _decode(f.fexpand(half, n, **kw), ax)
+        half = _as_form(_tagged(shape, ax), form)
+        keeph = np.array(half, copy=True)
+        rec["expand"] = _decode(f.fexpand(half, ns=n, **kw) if ns_kw else f.fexpand(half, n, **kw), ax)
+        if not (np.array_equal(full, keep) and np.array_equal(half, keeph)):
+            rec["exc"] = "ArgumentModified"
     except Exception as e:
         rec["exc"] = type(e).__name__
     return rec
 
 
-def filter_record(n, typ, b0, b1):
-    """gain of lp / hp at every bin, from the response to an impulse; corners b0 / n, b1 / n (si = 1)"""
+def filter_record(n, typ, b0, b1, form="list", shape_other=(), pos=0):
+    """gain of lp / hp at every bin, from the response to an impulse; corners b0 / n, b1 / n (si = 1).  `form`: how the corners
+    are handed over; `shape_other`: the impulse sits in a 2-/3-D array whose last axis is filtered with `axis` left out, at
+    sample `pos` (the gain is then read after undoing the shift)"""
     f = fourier()
-    rec = {"kind": "filter", "n": int(n), "typ": typ, "b0": int(b0), "b1": int(b1), "cls": [], "exc": ""}
+    rec = {"kind": "filter", "n": int(n), "typ": typ, "b0": int(b0), "b1": int(b1), "cls": [], "exc": "", "form": form,
+           "other": list(shape_other), "pos": int(pos)}
     try:
-        x = np.zeros(n)
-        x[0] = 1
-        y = getattr(f, typ)(x, 1, [b0 / n, b1 / n])
-        G = np.fft.fft(y)
+        x = np.zeros(tuple(shape_other) + (n,))
+        x[..., pos] = 1
+        b = [b0 / n, b1 / n]
+        b = {"list": b, "tuple": tuple(b), "array": np.array(b), "pyfloat": [float(v) for v in b]}[form]
+        keepb, keepx = [float(v) for v in b], x.copy()
+        y = getattr(f, typ)(x, 1, b)
+        if [float(v) for v in b] != keepb or not np.array_equal(x, keepx):
+            rec["exc"] = "ArgumentModified"
+        y = np.asarray(y)
+        rows = y.reshape(-1, n)
+        if y.shape != x.shape or not np.max(np.abs(rows - rows[0])) <= 1e-12:
+            rec["exc"] = rec["exc"] or "RowsDiffer"
+        G = np.fft.fft(np.roll(rows[0], -pos))
         cls = []
         for g in G:
             if abs(g.imag) > 1e-9 or not np.isfinite(g.real):
@@ -408,6 +458,427 @@ def numeric(ctx, rng):
 
 
 # ------------------------------------------------------------------------------------------------
+# argument forms, left-out arguments, call histories (projection; the clauses of `numeric`, references from the definitions)
+# ------------------------------------------------------------------------------------------------
+def smooth_min(n):
+    """least 2^a 3^b >= n by enumeration of the products (exact integers)"""
+    best = None
+    p3 = 1
+    while p3 < 4 * n:
+        v = p3
+        while v < n:
+            v *= 2
+        best = v if best is None else min(best, v)
+        p3 *= 3
+    return best
+
+
+def forms(ctx, rng):
+    """what a call can be handed and what it can find: dimensionalities, element types, memory layouts, read-only and aliased
+    arguments, arguments left out, the caller's arrays afterwards, earlier results afterwards, calls after other calls"""
+    import math
+    import scipy.signal
+    from ibldsp import utils
+    f = fourier()
+    out = []
+
+    def rel(a, b):
+        a, b = np.asarray(a), np.asarray(b)
+        if a.shape != b.shape:
+            return np.inf
+        if a.size == 0:
+            return 0.0
+        return float(np.max(np.abs(a - b)) / (1e-300 + max(1.0, np.max(np.abs(b)))))
+
+    def guarded(fn):
+        try:
+            return fn()
+        except Exception as ex:
+            return f"{type(ex).__name__}: {ex}"[:200]
+
+    # ---- convolve ------------------------------------------------------------------------------------------------------
+    def direct(x, w, mode):
+        x, w = np.asarray(x, dtype=np.float64), np.asarray(w, dtype=np.float64)
+        sh = np.broadcast_shapes(x.shape[:-1], w.shape[:-1])
+        xb = np.broadcast_to(x, sh + x.shape[-1:]).reshape(-1, x.shape[-1])
+        wb = np.broadcast_to(w, sh + w.shape[-1:]).reshape(-1, w.shape[-1])
+        r = np.stack([scipy.signal.convolve(a, b, mode=mode, method="direct") for a, b in zip(xb, wb)])
+        return r.reshape(sh + r.shape[-1:])
+
+    def conv_err(c, x, w, mode):
+        if isinstance(c, str):
+            return c
+        c, ref = np.asarray(c), direct(x, w, mode)
+        if mode == "full" and c.shape[-1] == ref.shape[-1] + 1:
+            ref = np.concatenate([ref, np.zeros(ref.shape[:-1] + (1,))], axis=-1)
+        e = rel(c, ref)
+        return None if e <= 1e-9 else f"rel. error {e}, returned shape {c.shape}"
+
+    def conv_calls(x, w, label, sc):
+        """the four spellings of the mode, the arguments afterwards"""
+        kx, kw = np.array(x, copy=True), np.array(w, copy=True)
+        for how, mode, call in (("mode left out", "full", lambda: f.convolve(x, w)),
+                                ("mode='full'", "full", lambda: f.convolve(x, w, mode="full")),
+                                ("positional 'same'", "same", lambda: f.convolve(x, w, "same")),
+                                ("mode='same'", "same", lambda: f.convolve(x, w, mode="same"))):
+            ctx.count(1)
+            e = conv_err(guarded(call), kx, kw, mode)
+            if e is None and not (np.array_equal(x, kx) and np.array_equal(w, kw)):
+                e = "the caller's arrays were modified"
+            if e is not None:
+                out.append((f"conv:Dense{mode.capitalize()}:{label.split(':')[0]}",
+                            f"convolve({label}; x {np.shape(x)} {np.asarray(x).dtype}, w {np.shape(w)}, {how}) is not the direct "
+                            f"convolution along the last axis: {e}", sc))
+
+    def draw(shape):
+        return rng.standard_normal(shape) + float(rng.choice([0.0, 3.0, -40.0]))     # contents need not be zero-mean
+
+    pairs = [(5, 4), (2, 1), (13, 13), (1, 1), (37, 8), (64, 9), (30, 50), (100, 143)]
+    pairs += [(int(rng.integers(1, 200)), int(rng.integers(1, 60))) for _ in range(6 if ctx.quick else 60)]
+    for nsx, nsw in pairs:
+        sc = {"kind": "forms", "what": "conv", "nsx": nsx, "nsw": nsw}
+        conv_calls(draw(nsx), draw(nsw), "dims:1-D signal, 1-D kernel", sc)
+        conv_calls(draw((2, 3, nsx)), draw(nsw), "dims:3-D signal, 1-D kernel", sc)
+        conv_calls(draw((3, nsx)), draw((3, nsw)), "dims:one kernel per row", sc)
+        conv_calls(draw(nsx), draw((2, nsw)), "dims:1-D signal, 2-D kernel", sc)
+        conv_calls(draw((2, 1, nsx)), draw((3, nsw)), "dims:broadcast [2,1,.] with [3,.]", sc)
+        big, wbig = draw((3, 2 * nsx + 1)), draw(nsw + 2)
+        conv_calls(big[:, 1::2], wbig[-2:0:-1], "layout:strided view of a longer buffer, reversed view", sc)
+        conv_calls(np.asfortranarray(draw((3, nsx))), draw(nsw), "layout:Fortran-ordered signal", sc)
+        conv_calls(draw((nsx, 4)).T, draw((nsw, 1)).T[0], "layout:transposed signal", sc)
+        x, w = draw((2, nsx)), draw(nsw)
+        x.flags.writeable = False
+        w.flags.writeable = False
+        conv_calls(x, w, "layout:read-only arrays", sc)
+        v = draw(nsx)
+        conv_calls(v, v, "alias:the same array as signal and kernel", sc)
+        conv_calls(rng.integers(-300, 300, (2, nsx)).astype(np.int16), (draw(nsw) * 0.1), "dtype:int16 signal", sc)
+        conv_calls(draw((2, nsx)), rng.integers(-3, 4, nsw).astype(np.int8), "dtype:int8 kernel", sc)
+    # a call finds what earlier calls left: same leading shape and same padded size, shorter signal and shorter kernel than
+    # the call before; a call that fails in between; the kernel object refilled in place; earlier results stay what they were
+    for seq in ([(44, 20), (40, 18), (38, 17), (20, 40), (54, 1), (1, 54)],            # padded size 64
+                [(60, 21), (55, 20), (53, 20), (80, 1), (40, 41), (2, 71)],            # padded size 81
+                [(700, 29), (690, 10), (650, 5)], [(5, 4), (4, 4), (4, 3), (3, 3), (1, 6)]):
+        kept = []
+        wobj = np.zeros(max(b for _, b in seq))
+        sc = {"kind": "forms", "what": "conv-history", "seq": seq}
+        for k, (nsx, nsw) in enumerate(seq):
+            x = draw((3, nsx)) + 2
+            w = wobj[:nsw]
+            w[:] = draw(nsw) + 1
+            for mode in ("full", "same"):
+                ctx.count(1)
+                c = guarded(lambda: f.convolve(x, w, mode=mode))
+                e = conv_err(c, x, w, mode)
+                if e is not None:
+                    out.append((f"conv:Dense{mode.capitalize()}:history",
+                                f"convolve([3,{nsx}], [{nsw}], '{mode}') as call {2 * k + 1} of the sequence {seq} (same leading shape "
+                                f"and padded size as the calls before, kernel object refilled in place): {e}", sc))
+                else:
+                    kept.append((c, np.array(c, copy=True), nsx, nsw, mode))
+            if k == 1:
+                guarded(lambda: f.convolve(x, draw((2, nsw))))             # leading shapes do not broadcast
+                guarded(lambda: f.convolve(x, w, mode="valid"))            # not one of the two modes
+                guarded(lambda: f.convolve(x[0], w[:0]))                   # empty kernel
+        for c, c0, nsx, nsw, mode in kept:
+            if not np.array_equal(np.asarray(c), c0):
+                out.append((f"conv:Dense{mode.capitalize()}:history",
+                            f"the array returned by convolve([3,{nsx}], [{nsw}], '{mode}') changed during later calls of the sequence "
+                            f"{seq}", sc))
+
+    # ---- ns_optim_fft --------------------------------------------------------------------------------------------------
+    def ns_case(arg, label, klass):
+        ctx.count(1)
+        v = guarded(lambda: f.ns_optim_fft(arg))
+        want = smooth_min(int(math.ceil(float(arg))) if not isinstance(arg, int) else arg)
+        ok = not isinstance(v, str) and np.ndim(v) == 0 and int(v) == v and int(v) == want
+        if not ok:
+            out.append((f"nsoptim:NsOptim:{klass}", f"ns_optim_fft({arg!r}) [{label}] = {v}, the least 2^a 3^b not below it is {want}",
+                        {"kind": "forms", "what": "nsoptim", "arg": repr(arg)}))
+        return ok
+
+    base = [1, 2, 3, 4, 5, 7, 8, 9, 10, 26, 27, 28, 81, 82, 96, 97, 100, 243, 244, 257, 729, 730, 1000, 2187, 4097, 6561, 6562]
+    base += [int(v) for v in rng.integers(1, 70000, size=10 if ctx.quick else 200)]
+    for n in base:
+        for typ in (np.int32, np.int64, np.uint16 if n < 60000 else np.uint32, np.intp, float, np.float64, np.float32 if n < 2 ** 20 else float):
+            ns_case(typ(n), typ.__name__, "argument-type")
+        if n > 1:
+            ns_case(n - 0.5, "fractional", "argument-type")
+            ns_case(np.float64(n) - 0.25, "fractional", "argument-type")
+    # calls in other orders than ascending: descending, large / small alternating, repeated
+    order = sorted(set(base), reverse=True)
+    order += [v for pr in zip(sorted(set(base)), sorted(set(base), reverse=True)) for v in pr]
+    order += [730, 730, 3, 3, 6562, 1, 6562]
+    for n in order:
+        ns_case(n, "after other calls", "call-order")
+    # larger sampled lengths (see NSOPTIM_LARGE_CAP)
+    large = [2 ** 20 + 1, 3 ** 13, 3 ** 13 + 1, 2 ** 23, 2 ** 23 + 1, 3 ** 14, 3 ** 14 + 1, 2 * 3 ** 14, 2 * 3 ** 14 + 1, NSOPTIM_LARGE_CAP]
+    large += [int(v) for v in rng.integers(10 ** 6, NSOPTIM_LARGE_CAP, size=30 if ctx.quick else 500)]
+    if NSOPTIM_BEYOND_CAP:
+        large += NSOPTIM_BEYOND + [int(10 ** rng.uniform(7.2, 12)) for _ in range(30 if ctx.quick else 500)]
+    for n in large:
+        ns_case(n, "large", "large")
+
+    # ---- fscale --------------------------------------------------------------------------------------------------------
+    def fs_ref(n, si, one):
+        k = np.arange(int(n))
+        num = np.where(2 * k <= int(n), k, k - int(n))
+        num = num[: int(n) // 2 + 1] if one else num
+        return num / (int(n) * float(si))
+
+    def fs_case(label, call, n, si, one):
+        ctx.count(1)
+        r = guarded(call)
+        e = r if isinstance(r, str) else rel(np.asarray(r, dtype=float) * float(si), fs_ref(n, si, one) * float(si))
+        if isinstance(e, str) or not e <= (1e-6 if isinstance(si, np.float32) else 1e-12):
+            out.append(("fscale:FScale:argument-forms" if not one else "fscale:FScaleOneSided:argument-forms",
+                        f"fscale [{label}] for n={n!r}, si={si!r}, one_sided={one} is not k / (n si): {e}",
+                        {"kind": "forms", "what": "fscale", "n": int(n)}))
+        return r
+
+    for n in [1, 2, 3, 4, 5, 6, 9, 10, 11, 27, 32, 81, 100, 101] + [int(v) for v in rng.integers(1, 3000, size=4 if ctx.quick else 40)]:
+        fs_case("si left out", lambda: f.fscale(n), n, 1, False)
+        fs_case("si left out, one_sided by name", lambda: f.fscale(n, one_sided=True), n, 1, True)
+        for si in (0.002, 1 / 30000, 2, np.float64(0.25), np.float32(0.5)):
+            fs_case("all by name", lambda: f.fscale(ns=n, si=si, one_sided=False), n, si, False)
+            fs_case("all positional", lambda: f.fscale(n, si, True), n, si, True)
+        for typ in (np.int32, np.int64, np.intp):
+            fs_case(f"n as {typ.__name__}", lambda: f.fscale(typ(n), 0.5), n, 0.5, False)
+            fs_case(f"n as {typ.__name__}", lambda: f.fscale(typ(n), 0.5, one_sided=True), n, 0.5, True)
+        # the caller may do what it likes with the returned scale: the next call still returns the bin frequencies
+        for one in (False, True):
+            r = fs_case("first call", lambda: f.fscale(n, 0.002, one_sided=one), n, 0.002, one)
+            if isinstance(r, np.ndarray) and r.flags.writeable:
+                r[...] = -1.0
+            fs_case("after the caller overwrote the scale returned by the call before", lambda: f.fscale(n, 0.002, one_sided=one), n, 0.002, one)
+
+    # ---- freduce / fexpand: axis left out on 2-/3-D arrays, memory forms, single precision, arguments afterwards -----------------
+    for sh in [(3, 1), (3, 2), (2, 5), (4, 6), (3, 27), (2, 3, 9), (2, 3, 12), (3, 2, 1), (2, 2, 28)]:
+        n = sh[-1]
+        x = draw(sh)
+        X = np.fft.fft(x, axis=-1)
+        for form in ("c", "f", "view", "ro", "c64"):
+            ctx.count(1)
+            Xa = _as_form(X, form) if form != "c64" else X.astype(np.complex64)
+            keep = np.array(Xa, copy=True)
+            tol = 1e-5 if form == "c64" else 1e-12
+
+            def go():
+                R = f.freduce(Xa)
+                keepR = np.array(R, copy=True)
+                E = f.fexpand(R, ns=n)
+                e = max(rel(E, X), rel(f.freduce(E), R), rel(R, np.fft.rfft(x, axis=-1)), rel(f.fexpand(R, n, axis=len(sh) - 1), X))
+                if not e <= tol:
+                    return f"round trip error {e}"
+                if not (np.array_equal(Xa, keep) and np.array_equal(R, keepR)):
+                    return "the argument array was modified"
+                return None
+            e = guarded(go)
+            if e is not None:
+                out.append(("maps:RoundTrip:default-axis", f"freduce / fexpand with `axis` left out on the fft of a real {sh} array "
+                            f"(memory form '{form}'): {e}", {"kind": "forms", "what": "roundtrip", "shape": list(sh)}))
+
+    # ---- lp / hp / bp --------------------------------------------------------------------------------------------------
+    def filt_case(x, si, b, axis, label, klass, tol=1e-10):
+        """lp + hp = Id, bp = hp o lp, acts along the (default: last) axis only, arguments untouched"""
+        ctx.count(3)
+        nd = np.ndim(x)
+        ax = nd - 1 if axis is None else axis
+        kw = {} if axis is None else {"axis": axis}
+        kx, kb = np.array(x, copy=True), [float(v) for v in b]
+        xf = kx.astype(np.float64)
+
+        def go():
+            lo, hi, bpp = f.lp(x, si, b[:2], **kw), f.hp(x, si, b[:2], **kw), f.bp(x, si, b, **kw)
+            if np.iscomplexobj(lo) or np.shape(lo) != np.shape(x):
+                return f"low-pass output {np.asarray(lo).dtype} {np.shape(lo)}"
+            e1 = rel(np.asarray(lo, dtype=np.float64) + hi, xf)
+            e2 = rel(bpp, f.hp(f.lp(xf, si, kb[2:], axis=ax), si, kb[:2], axis=ax))
+            xm = np.moveaxis(xf, ax, -1)
+            ref = np.stack([f.lp(tr, si, kb[:2]) for tr in xm.reshape(-1, xm.shape[-1])]).reshape(xm.shape)
+            e3 = rel(np.moveaxis(np.asarray(lo), ax, -1), ref)
+            if not max(e1, e2, e3) <= tol:
+                return f"lp+hp-Id {e1}, bp-hp(lp) {e2}, per-trace {e3}"
+            if not (np.array_equal(x, kx) and [float(v) for v in b] == kb):
+                return "the caller's array or corner list was modified"
+            return None
+        e = guarded(go)
+        if e is not None:
+            out.append((f"filter:LpHpBp:{klass}", f"lp/hp/bp [{label}] on a {np.shape(x)} {np.asarray(x).dtype} array, axis "
+                        f"{'left out' if axis is None else axis}, si={si}, corners {kb}: {e}",
+                        {"kind": "forms", "what": "lphp", "shape": list(np.shape(x))}))
+
+    def corners(si):
+        b = sorted(rng.uniform(0.05, 0.95, size=4) * 0.5 / si)
+        if rng.random() < 0.5:
+            b = [b[0], b[2], b[1], b[3]]
+        return [float(v) for v in b]
+
+    for sh in [(4, 30), (30, 4), (3, 27), (2, 31, 3), (2, 3, 16), (5, 5, 5), (3, 1), (1, 3), (1,), (2, 1, 2), (6, 500)]:
+        si = float(rng.choice([1.0, 0.002, 1 / 30000]))
+        b = corners(si)
+        filt_case(draw(sh), si, b, None, "axis left out", "default-axis")
+        filt_case(draw(sh), si, b, None if len(sh) == 1 else 0, "other contents, same corners", "default-axis")
+        filt_case(draw(sh), si, corners(si), None, "same shape and sampling interval, other corners", "default-axis")
+        x = draw(sh)
+        for form in ("f", "view", "ro"):
+            filt_case(_as_form(x, form), si, b, None, f"memory form '{form}'", "argument-forms")
+            filt_case(_as_form(x, form), si, b, 0, f"memory form '{form}'", "argument-forms")
+        filt_case(x, si, tuple(b), None, "corners as a tuple", "argument-forms")
+        filt_case(x, si, np.array(b), -1, "corners as an array", "argument-forms")
+        filt_case(x, np.float32(si) if si == 1.0 else si, b, None, "corners as a list", "argument-forms")
+        for dt in ("int16", "int32", "int64", "uint8", "float32"):
+            xi = (rng.integers(0, 200, sh) if dt == "uint8" else rng.integers(-3000, 3000, sh)).astype(dt) if dt != "float32" \
+                else draw(sh).astype(dt)
+            filt_case(xi, si, b, None, f"{dt} samples", "dtypes", tol=1e-5 if dt == "float32" else 1e-10)
+            filt_case(xi, si, b, 0, f"{dt} samples", "dtypes", tol=1e-5 if dt == "float32" else 1e-10)
+    # the caller keeps one corner list and refills it between calls
+    bobj, xobj = [0.0, 0.0, 0.0, 0.0], np.zeros((3, 64))
+    for k in range(4):
+        bobj[:] = corners(0.002)
+        xobj[...] = draw((3, 64))
+        filt_case(xobj, 0.002, bobj, None if k % 2 else 1, "the same corner list and array objects refilled in place", "history")
+    # an earlier result stays what it was while the filters are used on other data
+    x0 = draw((3, 40))
+    lo0 = guarded(lambda: f.lp(x0, 0.002, [50, 100]))
+    if isinstance(lo0, np.ndarray):
+        c0 = lo0.copy()
+        guarded(lambda: f.lp(draw((3, 40)), 0.002, [20, 30]))
+        guarded(lambda: f.hp(draw((3, 40)), 0.002, [50, 100]))
+        if not np.array_equal(lo0, c0):
+            out.append(("filter:LpHpBp:history", "the array returned by lp changed during later calls on other data of the same shape",
+                        {"kind": "forms", "what": "lphp", "shape": [3, 40]}))
+
+    # ---- dft / dft2 ----------------------------------------------------------------------------------------------------
+    for sh, ax in [((3, 7), None), ((3, 8), None), ((2, 3, 5), None), ((2, 3, 6), None), ((2, 9, 3), 1), ((2, 8, 3), -2), ((7, 2, 3), 0),
+                   ((6, 2, 3), -3), ((2, 3, 9), 2), ((4, 1), None), ((1, 4), 0), ((5,), None), ((6,), None)]:
+        for kind in ("real", "complex", "int16", "float32", "fortran", "read-only"):
+            ctx.count(1)
+            x = draw(sh)
+            if kind == "complex":
+                x = x + 1j * draw(sh)
+            elif kind == "int16":
+                x = rng.integers(-300, 300, sh).astype(np.int16)
+            elif kind == "float32":
+                x = x.astype(np.float32)
+            elif kind == "fortran":
+                x = np.asfortranarray(x)
+            elif kind == "read-only":
+                x.flags.writeable = False
+            keep = np.array(x, copy=True)
+            a = len(sh) - 1 if ax is None else ax
+            kw = {} if ax is None else {"axis": ax}
+            n = sh[a]
+
+            def go():
+                full = np.fft.fft(keep.astype(np.complex128 if kind == "complex" else np.float64), axis=a)
+                ref = full if kind == "complex" else np.fft.rfft(keep.astype(np.float64), axis=a)
+                e1 = rel(f.dft(x, **kw), ref)
+                ks = np.unique(rng.integers(0, n, size=3))
+                e2 = rel(f.dft(x, kscale=ks, **kw), np.take(full, ks, axis=a))
+                e3 = rel(f.dft(x, xscale=np.arange(n), **kw), ref)
+                e4 = rel(f.dft(x, np.arange(n), a, np.arange(n)), full)
+                ks2 = (ks + 1) % n                                        # as many coefficients as the call before, other ones
+                e5 = rel(f.dft(x, kscale=ks2, **kw), np.take(full, ks2, axis=a))
+                if not max(e1, e2, e3, e4, e5) <= (1e-5 if kind == "float32" else 1e-9):
+                    return f"errors {e1} (defaults) {e2} (kscale subset {ks}) {e3} (explicit xscale) {e4} (all positional) {e5} (kscale {ks2})"
+                if not np.array_equal(x, keep):
+                    return "the argument array was modified"
+                return None
+            e = guarded(go)
+            if e is not None:
+                out.append(("dft:Dft1:argument-forms", f"dft of a {kind} {sh} array along axis {'left out' if ax is None else ax}: {e}",
+                            {"kind": "forms", "what": "dft", "shape": list(sh)}))
+    for nk, nl in [(1, 1), (2, 3), (4, 4), (5, 7), (9, 2)]:
+        for kind in ("shuffled", "complex", "read-only"):
+            ctx.count(1)
+            nt = 2
+            g = draw((nk, nl, nt)) + (1j * draw((nk, nl, nt)) if kind == "complex" else 0)
+            r, c = [v.flatten() for v in np.meshgrid(np.arange(nk) / nk, np.arange(nl) / nl, indexing="ij")]
+            x = g.reshape(nk * nl, nt)
+            o = rng.permutation(nk * nl) if kind != "read-only" else np.arange(nk * nl)
+            x, r, c = x[o].copy(), r[o].copy(), c[o].copy()
+            if kind == "read-only":
+                for v in (x, r, c):
+                    v.flags.writeable = False
+            kx, kr, kc = x.copy(), r.copy(), c.copy()
+
+            def go():
+                e = rel(f.dft2(x, r, c, nk, nl), np.fft.fft2(g, axes=(0, 1)))
+                if not e <= 1e-9:
+                    return f"error {e}"
+                if not (np.array_equal(x, kx) and np.array_equal(r, kr) and np.array_equal(c, kc)):
+                    return "an argument array was modified"
+                return None
+            e = guarded(go)
+            if e is not None:
+                out.append(("dft:Dft2:argument-forms", f"dft2 on a regular {nk}x{nl} grid ({kind} samples): {e}",
+                            {"kind": "forms", "what": "dft2", "nk": nk, "nl": nl}))
+
+    # ---- fcn_cosine ----------------------------------------------------------------------------------------------------
+    def cos_err(b0, b1, xs, y, tol=1e-12):
+        if isinstance(y, str):
+            return y
+        y = np.asarray(y)
+        if y.shape != np.shape(xs):
+            return f"shape {y.shape} for an argument of shape {np.shape(xs)}"
+        xs, y = np.asarray(xs, dtype=np.float64).ravel(), y.astype(np.float64).ravel()
+        o = np.argsort(xs, kind="stable")
+        xs, y = xs[o], y[o]
+        m = 1e-3 * (b1 - b0)
+        inner = (xs > b0 + m) & (xs < b1 - m)
+        ok = np.all(y[xs <= b0] == 0) and np.all(np.abs(y[xs >= b1] - 1) <= tol) and np.all(np.diff(y) >= -tol) \
+            and np.all((y >= 0) & (y <= 1 + tol)) and np.all(y[inner] > 0) and np.all(y[inner] < 1) \
+            and np.all(np.abs(y[xs == (b0 + b1) / 2] - 0.5) <= max(tol, 1e-9))
+        return None if ok else "not a monotone 0 -> 1 taper between the bounds"
+
+    def cos_case(bounds, xs, label, klass="argument-forms", tol=1e-12, fn=None):
+        ctx.count(1)
+        kx = np.array(xs, copy=True)
+        kb = [float(v) for v in bounds]
+        y = guarded(lambda: (fn or utils.fcn_cosine(bounds))(xs))
+        e = cos_err(kb[0], kb[1], kx, y, tol)
+        if e is None and not (np.array_equal(xs, kx) and [float(v) for v in bounds] == kb):
+            e = "the argument array or the bounds were modified"
+        if e is not None:
+            out.append((f"cosine:Monotone:{klass}", f"fcn_cosine({bounds!r}) on {label}: {e}",
+                        {"kind": "forms", "what": "cosine", "b": kb}))
+        return y
+
+    for b0, b1 in [(0, 8), (0, 1), (3, 4), (-5, 6), (20, 30), (376, 384)] + \
+                  [tuple(int(v) for v in sorted(rng.choice(np.arange(-50, 400), size=2, replace=False))) for _ in range(6)]:
+        lo_, hi_ = b0 - 3 * (b1 - b0) - 2, b1 + 3 * (b1 - b0) + 2
+        for dt in (np.int64, np.int32, np.int16):
+            cos_case([b0, b1], np.arange(lo_, hi_, dtype=dt), f"integer samples ({np.dtype(dt).name}) {lo_}..{hi_ - 1}")
+        cos_case((b0, b1), np.arange(lo_, hi_, dtype=np.float64), "bounds as a tuple")
+        cos_case(np.array([b0, b1]), np.arange(lo_, hi_, dtype=np.float64), "bounds as an integer array")
+        cos_case(np.array([b0, b1], dtype=np.float32), np.linspace(lo_, hi_, 301), "bounds as a float32 array")
+        cos_case([float(b0), float(b1)], np.linspace(lo_, hi_, 257).astype(np.float32), "float32 samples", tol=1e-6)
+        cos_case([b0, b1], np.linspace(lo_, hi_, 240).reshape(4, 60), "a 2-D argument")
+        cos_case([b0, b1], np.linspace(lo_, hi_, 240).reshape(6, 40).T, "a transposed 2-D argument")
+        cos_case([b0, b1], rng.permutation(np.linspace(lo_, hi_, 200)), "samples in no order")
+        cos_case([b0, b1], np.linspace(hi_, lo_, 200), "descending samples")
+        cos_case([b0, b1], np.abs(np.linspace(-hi_, hi_, 200)), "|v| of a symmetric scale")
+        cos_case([b0, b1], np.linspace(lo_, hi_, 100)[::3], "a strided view")
+        xs = np.linspace(lo_, hi_, 50)
+        xs.flags.writeable = False
+        cos_case([b0, b1], xs, "a read-only argument")
+        # one taper object used again and again, two tapers alive at once
+        fa, fb = utils.fcn_cosine([b0, b1]), utils.fcn_cosine([b0 + 1, b1 + 7])
+        xa, xb, xc = np.linspace(lo_, hi_, 90), np.linspace(lo_, hi_ + 9, 31), np.linspace(b0, b1, 7)
+        ya = cos_case([b0, b1], xa, "first use of the taper object", "reuse", fn=fa)
+        cos_case([b0 + 1, b1 + 7], xb, "a second taper object made before the first was used", "reuse", fn=fb)
+        ka = np.array(ya, copy=True) if isinstance(ya, np.ndarray) else None
+        cos_case([b0, b1], xb, "second use of the taper object, other length", "reuse", fn=fa)
+        cos_case([b0 + 1, b1 + 7], xc, "second use of the second taper object", "reuse", fn=fb)
+        cos_case([b0, b1], xc, "third use of the taper object", "reuse", fn=fa)
+        if ka is not None and not np.array_equal(ya, ka):
+            out.append(("cosine:Monotone:reuse", f"the array returned by the first use of fcn_cosine([{b0}, {b1}]) changed during later uses",
+                        {"kind": "forms", "what": "cosine", "b": [b0, b1]}))
+    return out
+
+
+# ------------------------------------------------------------------------------------------------
 def run_models(ctx):
     if ctx.quick:
         runs = [("mc/Spectral_basis_quick.cfg", None), ("mc/Spectral_quick.cfg", "pairs.json")]
@@ -513,15 +984,29 @@ def run(ctx):
             recs.append(maps_record(n, (3,), [0, 1, -1, -2][n % 4]))
         if n <= 30:
             recs.append(maps_record(n, (2, 3), [0, 1, 2, -1, -2, -3][n % 6]))
+        if n <= (24 if ctx.quick else 100) or n in (27, 81, 243):
+            # `axis` left out on 2-/3-D arrays (the bins are then along the last axis), `ns` by name, other memory forms
+            form = ["c", "f", "view", "ro"][n % 4]
+            recs.append(maps_record(n, (3,), 1, use_default_axis=True, ns_kw=True, form=form))
+            recs.append(maps_record(n, (2, 3), 2, use_default_axis=True, ns_kw=(n % 2 == 0), form=["ro", "c", "f", "view"][n % 4]))
+            recs.append(maps_record(n, (3,), [0, -2][n % 2], ns_kw=True, form=["view", "ro", "c", "f"][n % 4]))
     for n in range(2, 41 if ctx.quick else 121):
         for typ in ("lp", "hp"):
             b0 = rnd.randint(0, n // 2)
             b1 = b0 + rnd.randint(1, 3)
             recs.append(filter_record(n, typ, b0, b1))
+        # the same filter again on the same length with other corners, handed over in another form; then inside a 2-/3-D
+        # array whose last axis is filtered because `axis` is left out, the impulse anywhere on that axis
+        typ = ("lp", "hp")[n % 2]
+        b0 = rnd.randint(0, n // 2)
+        recs.append(filter_record(n, typ, b0, b0 + rnd.randint(1, 3), form=["tuple", "array", "pyfloat"][n % 3]))
+        b0 = rnd.randint(0, n // 2)
+        recs.append(filter_record(n, typ, b0, b0 + rnd.randint(1, 3), form=["array", "pyfloat", "tuple"][n % 3],
+                                  shape_other=[(3,), (2, 2), (n,)][n % 3], pos=rnd.randrange(n)))
     ctx.count(len(recs))
     for r in recs:
         if r["kind"] != "conv":
-            ctx._distinct.add((r["kind"], r["n"], r.get("typ"), r.get("axis")))
+            ctx._distinct.add((r["kind"], r["n"], r.get("typ"), r.get("axis"), r.get("form"), r.get("default_axis")))
     verd = tracecheck.validate(ctx, "trace/SpectralTrace.tla", "trace/SpectralTrace.cfg", recs, label="spectral", jvms=4, workers=2,
                                nstates=lambda t: 3, timeout=2400)
     ndrift = 0
@@ -574,10 +1059,14 @@ def run(ctx):
                               {"kind": "fscale", "rec": got})
     for key, what, sc in numeric(ctx, rng):
         ctx.violation(key, what, sc)
+    for key, what, sc in forms(ctx, np.random.default_rng([ctx.seed, 18])):
+        ctx.violation(key, what, sc)
     selftest(ctx)
     ctx.cov["numeric_postconditions"] = ("impulse samples == 0 / 1 to 1e-9; dense random convolution vs direct (1e-9 rel.); "
                                          "expand(reduce(fft x)) = fft x (1e-12); lp + hp = Id, bp = hp o lp (1e-10); dft / dft2 vs "
-                                         "fft / fft2 (1e-9); fcn_cosine monotone 0 -> 1")
+                                         "fft / fft2 (1e-9); fcn_cosine monotone 0 -> 1; the same clauses on left-out arguments, other "
+                                         "dimensionalities / element types / memory layouts, untouched arguments and earlier results, "
+                                         "calls after other calls (forms)")
     ctx.cov["rule"] = ("model: every impulse pair for small lengths, corner impulses for every pair of lengths of the box; traces: the "
                        "real convolve on the full impulse basis of small pairs and of every small pair with odd padded size, helper "
                        "outputs; replay: partial impulse basis on every pair of TLC's box + all pairs with odd padded size; "
@@ -678,12 +1167,13 @@ def replay(ctx, sc):
         recs = [fscale_record(sc["rec"]["n"], float(sc["rec"]["si"]))]
     elif kind == "maps":
         r = sc["rec"]
-        recs = [maps_record(r["n"], tuple(r["other"]), r["axis"])]
+        recs = [maps_record(r["n"], tuple(r["other"]), r["axis"], use_default_axis=r.get("default_axis", False), form=r.get("form", "c"))]
     elif kind == "filter":
         r = sc["rec"]
-        recs = [filter_record(r["n"], r["typ"], r["b0"], r["b1"])]
+        recs = [filter_record(r["n"], r["typ"], r["b0"], r["b1"], form=r.get("form", "list"), shape_other=tuple(r.get("other", ())),
+                              pos=r.get("pos", 0))]
     else:
-        for key, what, s2 in numeric(ctx, np.random.default_rng(ctx.seed)):
+        for key, what, s2 in numeric(ctx, np.random.default_rng(ctx.seed)) + forms(ctx, np.random.default_rng([ctx.seed, 18])):
             ctx.violation(key, "replay: " + what, s2)
         return
     verd = tracecheck.validate(ctx, "trace/SpectralTrace.tla", "trace/SpectralTrace.cfg", recs, label="replay", jvms=1,
